@@ -160,6 +160,28 @@ func extremeCases(st *Stats, prefix string) []Case {
 	return out
 }
 
+// viaFileClones: every k-th `run` case once more with the text in a scratch FILE (RunFiles, mode NOTHING); half of the
+// clones get a text that starts with a UTF-8 byte order mark, a quarter one that starts with CR LF — whatever the
+// reader does with the head of a file, offsets are offsets into the bytes of the file
+func viaFileClones(r *rand.Rand, st *Stats, cs []Case, k int) []Case {
+	out := []Case{}
+	for i, c := range cs {
+		if c.Op != "run" || len(c.Fields) != 2 || i%k != 0 {
+			continue
+		}
+		text := unhx(c.Fields[1])
+		switch r.Intn(4) {
+		case 0, 1:
+			text = "\xef\xbb\xbf" + text
+		case 2:
+			text = "\r\n" + text
+		}
+		out = append(out, Case{ID: c.ID + "F", Op: "run", Fields: []string{c.Fields[0], hx(text), "viafile"}, Meta: map[string]string{}})
+	}
+	st.Counts["via-file-clones"] = len(out)
+	return out
+}
+
 func sizes(tier string, quick, thorough int) int {
 	if tier == "thorough" {
 		return thorough
@@ -193,6 +215,7 @@ func init() {
 		cfg.Globals = false
 		cfg.Predicates = false
 		cs := searchCases(r, st, sizes(tier, 1200, 30000), cfg, 4, 12, "g")
+		cs = append(cs, reentrantCases(r, st, sizes(tier, 210, 4200), "re")...)
 		return append(cs, bindFailCases(r, st, sizes(tier, 700, 15000), "b")...)
 	}
 	propGens["C03"] = func(r *rand.Rand, tier string, st *Stats) []Case {
@@ -203,6 +226,7 @@ func init() {
 		cfg.Amounts = true
 		cfg.MultiCmd = true
 		cs := searchCases(r, st, sizes(tier, 1300, 30000), cfg, 4, 20, "g")
+		cs = append(cs, viaFileClones(r, st, cs, 7)...)
 		cs = append(cs, bigTextCases(r, st, sizes(tier, 20, 200), "big")...)
 		cs = append(cs, extremeCases(st, "x")...)
 		return append(cs, bindFailCases(r, st, sizes(tier, 300, 6000), "b")...)
@@ -227,6 +251,7 @@ func init() {
 		cfg.Amounts = true
 		cfg.MultiCmd = true
 		cs := searchCases(r, st, sizes(tier, 2000, 40000), cfg, 5, 10, "g")
+		cs = append(cs, viaFileClones(r, st, cs, 11)...)
 		cs = append(cs, extremeCases(st, "x")...)
 		return append(cs, bigTextCases(r, st, sizes(tier, 20, 200), "big")...)
 	}
